@@ -208,7 +208,8 @@ def element_names(rng, n, kind=None):
     """n distinct element names.  kinds: int (0..n-1 shifted), bigint, str, intlike (digit
     strings), mixed_str (words, some digit strings together with words)"""
     if kind is None:
-        kind = rng.choice(["int", "int", "bigint", "str", "str", "intlike", "mixed_str", "digits_plus_word"])
+        kind = rng.choice(["int", "int", "bigint", "str", "str", "intlike", "mixed_str", "digits_plus_word", "negint",
+                           "hugeint"])
     if kind == "int":
         base = rng.choice([0, 0, 1, 5])
         names = list(range(base, base + n))
@@ -219,6 +220,12 @@ def element_names(rng, n, kind=None):
         names = rng.sample(pool, n) if n <= len(pool) else [f"e{i}" for i in range(n)]
     elif kind == "intlike":
         names = [str(v) for v in rng.sample(range(0, 60), n)]
+    elif kind == "negint":
+        names = rng.sample(range(-8 - n, 12 + n), n)
+    elif kind == "hugeint":
+        # around 2^31, 2^61 - 1 (CPython's hash modulus) and 2^63: ids that do not fit int32 / collide after hashing
+        pool = [2 ** 31 - 1, 2 ** 31, 2 ** 31 + 1, 2 ** 61 - 2, 2 ** 61 - 1, 2 ** 61, 2 ** 63, 2 ** 63 + 5, 10 ** 12, 7, 0, 1]
+        names = rng.sample(pool, min(n, len(pool)))
     elif kind == "int_and_str":
         # real ints next to words (and sometimes digit strings): the dataset must end up holding strings only
         names = list(rng.sample(range(0, 60), n))
